@@ -371,7 +371,8 @@ impl Triangle {
         ComplexField::sqrt(sqr.max(0.0)) * 0.25
     }
 
-    /// Computes the unit angular inertia of this triangle.
+    /// Computes the unit angular inertia of this triangle relative to its first vertex `a`
+    /// (not relative to its center of mass).
     #[cfg(feature = "dim2")]
     pub fn unit_angular_inertia(&self) -> Real {
         let factor = 1.0 / 6.0;
